@@ -284,7 +284,30 @@ Inv == TypeOK /\ ExactlyOnceAscending /\ RecordsLatestAfterwards /\ AllOrNothing
 \* property fixes "refuse" above the latest; equal opens; below is not its subject
 OpenClass(v, l) == IF v > l THEN "refuse" ELSE IF v = l THEN "ok" ELSE "any"
 
+(* The upgrade is called once more, in the same process on the same version  *)
+(* tables and the same database, with the injected failure gone (a retry    *)
+(* after a failed start, or simply the next start): it must again run        *)
+(* exactly what is pending NOW, ascending, and record the latest versions.   *)
+Ver1(i)      == disk[i].ver                                   \* stored version after the first call
+Pending2(i)  == {n \in NonNil(mgrs[i].table) : n > Ver1(i)}
+Rev2         == {i \in 1..N : Ver1(i) > Latest(i)}
+FirstRev2    == IF Rev2 = {} THEN 0 ELSE CHOOSE i \in Rev2 : \A j \in Rev2 : i <= j
+RECURSIVE SetToSeqNums(_)
+SetToSeqNums(S) == IF S = {} THEN << >> ELSE LET x == CHOOSE y \in S : TRUE IN <<x>> \o SetToSeqNums(S \ {x})
+Asc(S)       == SortSeq(SetToSeqNums(S), LAMBDA a, b : a < b)
+RetryOf(i)   == [k \in 1..Cardinality(Pending2(i)) |-> [k |-> "mig", n |-> Asc(Pending2(i))[k], m |-> i]]
+                \o (IF Ver1(i) < Latest(i) THEN << [k |-> "set", n |-> Latest(i), m |-> i] >> ELSE << >>)
+RECURSIVE RetryEvents(_)
+RetryEvents(i) == IF i > N \/ (FirstRev2 # 0 /\ i >= FirstRev2) THEN << >> ELSE RetryOf(i) \o RetryEvents(i + 1)
+Retry == [ events |-> RetryEvents(1),
+           err    |-> IF FirstRev2 = 0 THEN "none" ELSE "reversion",
+           disk   |-> [i \in 1..N |-> IF FirstRev2 = 0
+                                      THEN [ver |-> IF Ver1(i) < Latest(i) THEN Latest(i) ELSE Ver1(i),
+                                            marks |-> disk[i].marks \cup Pending2(i)]
+                                      ELSE [ver |-> Ver1(i), marks |-> disk[i].marks]] ]
+
 Exp == [ events |-> events,
+         retry  |-> Retry,
          err    |-> err,
          seen   |-> seen,
          \* real migration functions may write the version key themselves (waddrmgr's
